@@ -205,6 +205,18 @@ func doCall(kind, gen string, stateful bool, st *genState, c gengo.Context, obj 
 				c.RenderT("\nvar _ = [2]any{new(@Zed), new(@Alpha)}\n",
 					snippet.Arg("Alpha", snippet.ID(ModPath+"/lib10/codec.T")), snippet.Arg("Zed", snippet.ID(ModPath+"/lib9/codec.T")))
 			}
+			if obj.Name() == "T2" {
+				// two generators' files of one package bind the same path differently: in b's file lib12/model takes the short name
+				// first, in every other file lib11/model has it - each file keeps its own table, whatever the package's other files say
+				if gen == "b" {
+					c.Render(snippet.Snippets(func(yield func(snippet.Snippet) bool) {
+						_ = yield(snippet.Block("\nvar _ ")) && yield(snippet.ID(ModPath+"/lib12/model.T")) && yield(snippet.Block("\n"))
+					}))
+				}
+				c.Render(snippet.Snippets(func(yield func(snippet.Snippet) bool) {
+					_ = yield(snippet.Block("\nvar _ ")) && yield(snippet.ID(ModPath+"/lib11/model.T")) && yield(snippet.Block("\n"))
+				}))
+			}
 			if strings.HasSuffix(pkgPath, "/p") && obj.Name() == "T1" {
 				// p's file refers to BOTH packages called util (one of them gets a longer local name there); q's file refers to
 				// lib2/util alone and calls it util - whatever p's file had to call it
